@@ -7,6 +7,7 @@ from .. import paths, waiters
 from ..core import FUNC, call_attr, calls_in, const, dotted, is_const, kwarg, norm, text, walk_local
 
 EXPLANATION = [
+    'C13.uncalled-predicate: done / cancelled / is_set / locked / empty used as truth values are called (a bound method is always true).',
     "C13.ltk-chain: the controller's long-term-key request reaches the pairing session with its arguments in the declared order: the arguments of `Host.long_term_key_provider(...)` have the field types the slot's Callable annotation lists, and along the get_long_term_key chain no Name argument sits at the position of a differently named parameter of the callee.",
     "C13.identity: no `is` / `is not` comparison in the anchored modules has an operand declared as a number, byte string or string (identity of equal integers holds only inside CPython's small-integer cache, so such a test is right for values up to 256 and wrong afterwards).",
     'C13.session-lifecycle: command handlers are reached only while the session has not completed; a Pairing Request for a finished session replaces it; the SC key derivations are reached only with a computed DH key.',
@@ -783,7 +784,13 @@ def ltk_chain(ctx):
     argument_agreement(ctx, 'C13.ltk-chain', ['bumble.host', 'bumble.device', 'bumble.smp'], {'get_long_term_key'})
 
 
+def uncalled_predicate_rule(ctx):
+    from ..generic_rules import uncalled_predicate
+    uncalled_predicate(ctx, 'C13.uncalled-predicate', ['bumble.smp', 'bumble.pairing'])
+
+
 RULES = [
+    ('C13.uncalled-predicate', uncalled_predicate_rule),
     ('C13.ltk-chain', ltk_chain),
     ('C13.identity', identity_rule),
     ('C13.session-lifecycle', session_lifecycle),
